@@ -113,6 +113,56 @@ func (k *checker) depthLimit(use []evmkit.Epoch) {
 	})
 }
 
+// createPairs: one frame creates two contracts one after the other; every ordered pair of init codes from
+// a set whose members jump (near, far, into PUSH data that another member has as code at the same offset)
+// or do not jump. Whatever an execution learns about one piece of code must not carry over to another.
+func createInits() [][]byte {
+	h := func(s string) []byte { b, _ := hex.DecodeString(s); return b }
+	return [][]byte{
+		h("6003565b00"),     // PUSH1 3 JUMP JUMPDEST STOP
+		h("6005565b5b5b00"), // JUMPDESTs at 3,4,5; jumps to 5
+		h("600456615b5b00"), // PUSH1 4 JUMP PUSH2 5b5b STOP: target 4 is PUSH data (invalid)
+		h("601456" + "6f" + "5b5b5b5b5b5b5b5b5b5b5b5b5b5b5b5b" + "5b00"), // PUSH1 20 JUMP PUSH16 <16 x 5b> JUMPDEST(20) STOP: far valid target
+		h("600a56" + "6f" + "5b5b5b5b5b5b5b5b5b5b5b5b5b5b5b5b" + "5b00"), // PUSH1 10 JUMP ...: target inside the PUSH16 data (invalid)
+		h("600160005500"), // no jump: SSTORE(0,1) STOP
+	}
+}
+
+func createPairProgram(a, b []byte) []byte {
+	one := func(init []byte) []byte {
+		w := make([]byte, 32)
+		copy(w, init)
+		p := append([]byte{0x7f}, w...)                                              // PUSH32 init (left aligned)
+		p = append(p, 0x60, 0x00, 0x52)                                              // PUSH1 0 MSTORE
+		p = append(p, 0x60, byte(len(init)), 0x60, 0x00, 0x60, 0x00, opCREATE, 0x50) // CREATE(0, 0, len) POP
+		return p
+	}
+	return append(append(one(a), one(b)...), 0x00)
+}
+
+func (k *checker) createPairs(use []evmkit.Epoch) {
+	inits := createInits()
+	type pc struct {
+		ep   evmkit.Epoch
+		a, b int
+	}
+	var cases []pc
+	for _, ep := range use {
+		for a := range inits {
+			for b := range inits {
+				cases = append(cases, pc{ep, a, b})
+			}
+		}
+	}
+	k.run.Set("create_pair_programs", len(cases))
+	k.parallel(len(cases), func(i int) {
+		c := cases[i]
+		for _, g := range []uint64{1000000, evmkit.GasLimit} {
+			k.evaluate(Case{Scenario: "create-pairs", Mode: ModeCall, Code: createPairProgram(inits[c.a], inits[c.b]), Gas: g, Ep: c.ep})
+		}
+	})
+}
+
 func replay(k *checker, d *ev.ReplayDoc) {
 	get := func(key string) string { s, _ := d.Detail[key].(string); return s }
 	code, e1 := hex.DecodeString(get("code"))
